@@ -74,7 +74,12 @@ def monitor_with_ops(ctx):
             return ("%d layers were run but no 'Total:' line was printed" % len(parsed_["headers"]), "C16:summary")
         if any_bad and c.obs.exit != 1:
             return ("a failure/error was recorded but the exit status is %r" % c.obs.exit, "C16:verdict")
-        if any_bad and "Ran " not in c.obs.stdout and not any(not e[2] for e in parent if e[0] == "lsu"):
+        if any_bad and "Ran " not in c.obs.stdout and parsed_["total"] is None:
+            first_lsu = next((e for e in parent if e[0] == "lsu"), None)
+            if first_lsu is not None and not first_lsu[2] and not any(e[0] == "tstart" for e in parent) and not children:
+                # KNOWN-FINDING D40: the only layer entered could not be set up - neither its "Ran" line nor "Total:"
+                return ("no summary at all: the first layer's setUp failed, so no 'Ran ...' line, and 'Total:' is only "
+                        "printed when more than one layer was entered", "known:D40-no-summary-first-layer-setup")
             return ("no summary printed", "C16:summary")
         return None
     return monitor
@@ -173,6 +178,34 @@ def gen_cases(ctx):
 
 def run(ctx):
     cw.standard_check(ctx, cw.corpus_cases(PROP) + gen_cases(ctx), PROP, KINDS, "runner.stop", monitor_with_ops(ctx))
+
+
+def probe_d40(ctx):
+    import os
+    import random
+    import shutil
+    rng = random.Random(40)
+    w = worlds.gen_world(rng, n_layers=2, tests_per_layer=(1, 1), kinds=["pass"], p_fault=0.0, p_write=0.0)
+    w["tests"] = [t for t in w["tests"] if w["layers"][t["layer"]]["kind"] != "unit"]
+    for m in w["modules"].values():
+        m["suites"] = []
+    for t in w["tests"]:
+        w["modules"][t["module"]]["suites"].append({"t": "leaf", "id": t["id"], "lyr": t["layer"]})
+    for l in w["layers"]:
+        if l["kind"] != "unit":
+            l.update(setUp=True, tearDown=True, bases=[], setUpRaises=[999999], tearDownFaults=[])
+            l.pop("falsy", None)
+    d = os.path.join(ctx.tmp, "probe_d40")
+    worlds.materialize(w, d)
+    obs = worlds.run_real(w, {"verbose": 1, "stopOnError": True}, d)
+    shutil.rmtree(d, ignore_errors=True)
+    still = obs.exit == 1 and "Ran " not in obs.stdout and "Total:" not in obs.stdout
+    return still, ("-x: when the first layer's setUp fails the run ends (verdict failed, layers torn down) without any "
+                   "summary line: no 'Ran ...' (the layer ran no test) and no 'Total:' (printed only when more than one "
+                   "layer was entered)")
+
+
+KNOWN_PROBES = {"D40": probe_d40}
 
 
 def replay(ctx, obj):
